@@ -42,7 +42,7 @@ CLAIM = dict(
          "golden corpus; identifiers re-computed with hashlib.",
     note="partial: 'streams archived from earlier releases' are represented by the shapes the compatibility code names "
          "(extra reserved fields, no version, name-only identifier) plus a golden corpus frozen at the pinned revision; "
-         "no archive of historical files exists in the sandbox. SHA-256 itself is hashlib's.",
+         "no archive of historical files exists in the sandbox. SHA-256 is an executable definition inside the model, checked by the kernel on the standard vectors and against hashlib on every generated descriptor (no theorem relies on a property of the hash).",
     technique="Lean 4 `decide` obligations Gen = frozen Spec + induction over the msgpack format relation (all size "
               "classes) + reference decoder/encoder correspondence + golden corpus",
     design="8/C02")
